@@ -1399,3 +1399,37 @@ def rule_sock_type(ctx, cfg, F):
                 R.violate("%s:not-seqpacket" % f.path, "%s in %s can create a socket of type %s, not SOCK_SEQPACKET: packet boundaries are lost and a partial send counts as a sent fragment" % (
                     strip_generics(callee_name(t)).split("::")[-1], f.path, ", ".join(str(x & 0xf) for x in sorted(vals) if (x & 0xf) != 5)), f.path, f.loc(b), config=cfg)
     R.count("socket_sites[%s]" % cfg, n)
+
+
+SO_SNDBUF, SO_RCVBUF = 7, 8      # linux (asm-generic); the rule reads the constant's name when the driver recorded it
+
+
+def rule_sock_buf(ctx, cfg, F):
+    F = F.nodrop() if hasattr(F, "nodrop") else F
+    R = ctx.rule("SOCK-BUF", "packet sizes are computed once per process from the default send-buffer size of a probe socket (SYSTEM_SENDBUF_SIZE): no socket of the backend is given a "
+                 "different SO_SNDBUF / SO_RCVBUF, or packets sized for the default are refused (EMSGSIZE) on that socket")
+    n = 0
+    for f in sorted(F.fns.values(), key=lambda x: x.path):
+        if not f.path.startswith("platform::unix") or f.file.endswith("test.rs"):
+            continue
+        ex = None
+        for b, t in f.calls():
+            nm = strip_generics(callee_name(t))
+            if nm.endswith("getsockopt"):
+                n += 1
+            if not nm.endswith("setsockopt") or len(t["args"]) < 3:
+                continue
+            n += 1
+            ex = ex or Expr(f)
+            a = t["args"][2]
+            v = const_eval(ex.of_operand(a))
+            vals = [v] if v is not None else possible_consts(f, a)
+            name = str(a.get("s", "")) if a.get("k") == "c" else ""
+            if "SO_SNDBUF" in name or "SO_RCVBUF" in name or any(x in (SO_SNDBUF, SO_RCVBUF, 32, 33) for x in vals):
+                R.violate("%s:socket-buffer-resized" % strip_generics(f.path), "%s changes the kernel buffer size of a socket (%s): the fragment sizes in send() come from the process-wide default measured once, "
+                          "so a single packet that fits the default no longer fits this socket and send fails with EMSGSIZE instead of being fragmented" % (f.path, name or vals), f.path, f.loc(b), config=cfg)
+            elif not vals and not name:
+                R.violate("%s:socket-option-unresolved" % strip_generics(f.path), "the option operand of setsockopt in %s is not a resolvable constant" % f.path, f.path, f.loc(b), config=cfg)
+            else:
+                R.ok("setsockopt(%s) in %s does not touch the buffer sizes" % (name or vals, f.path), f.loc(b), cfg)
+    R.count("sockopt_sites[%s]" % cfg, n)
